@@ -169,7 +169,6 @@ func (c *c13Runner) runCase(unit uint64, seed cgenSeed, m cgenMut) {
 	c.sink.Violation(site+".Decode", kind, key, detail, c13Case{Type: ct.Name, Devs: seed.devs, Mut: m, Seed: cgenHex(seed.enc)})
 }
 
-func c13SeedK(r *vlib.Run) int { return vlib.Pick(r, 1, 1) }
 
 // c13Units: the deterministic list of seeds (all shards and all children compute the same list).
 func c13Units(r *vlib.Run, crashed map[string]string) []cgenSeed {
@@ -178,7 +177,15 @@ func c13Units(r *vlib.Run, crashed map[string]string) []cgenSeed {
 		if crashed[ct.Name] != "" {
 			continue
 		}
-		out = append(out, cgenSeedsSel(ct, c13SeedK(r), 4096, !r.Thorough())...)
+		k := 1
+		if r.Thorough() {
+			// small types: two deviations, so that e.g. a *set* optional inside a one-element list is a seed
+			v, _ := cgenBuild(ct.T, nil, ct.Ctx)
+			if enc, err := ct.Enc(v.Addr()); err == nil && len(enc) <= 96 {
+				k = 2
+			}
+		}
+		out = append(out, cgenSeedsSel(ct, k, 4096, !r.Thorough())...)
 	}
 	return out
 }
